@@ -214,7 +214,33 @@ func genC11Chain(r *Run, t TableSpec, uuid string) (*ModelJ, []RowOperationJ) {
 				}
 			}
 			ops = append(ops, RowOperationJ{Op: "update", Row: row})
-		case k < 9:
+		case k == 8:
+			// a set column emptied, then filled with several elements and partly (or wholly) emptied again by
+			// the mutations of ONE operation: the second mutation works on what the first one built
+			var sets []ColSpec
+			for _, c := range t.Cols {
+				if c.Type.Kind == "set" && !c.Immutable && c.Type.Min == 0 {
+					sets = append(sets, c)
+				}
+			}
+			if len(sets) == 0 {
+				continue
+			}
+			c := sets[rng.Intn(len(sets))]
+			var v *Value
+			for try := 0; try < 20; try++ {
+				if v = genValue(rng, c.Type); len(v.S) >= 2 {
+					break
+				}
+			}
+			if len(v.S) < 2 {
+				continue
+			}
+			del := &Value{K: 'S', S: append([]Atom{}, v.S[:1+rng.Intn(len(v.S))]...)}
+			ops = append(ops, RowOperationJ{Op: "update", Row: Row{c.Name: &Value{K: 'S', S: []Atom{}}}},
+				RowOperationJ{Op: "mutate", Mutations: []MutationJ{{Col: c.Name, Mutator: "insert", Val: nativeToOvsValue(v)}, {Col: c.Name, Mutator: "delete", Val: nativeToOvsValue(del)}}})
+			i++
+		case k < 8:
 			var ms []MutationJ
 			for j := 1 + rng.Intn(3); j > 0; j-- {
 				c := t.Cols[rng.Intn(len(t.Cols))]
